@@ -32,7 +32,7 @@ inductive UVal where
   | out (out : List Char)
   | bool (b : Bool)
   | err (tag : String)
-  deriving Repr, BEq, Inhabited
+  deriving Repr, BEq, DecidableEq, Inhabited
 
 structure UObs where
   val : UVal
@@ -163,7 +163,7 @@ inductive Verdict where
   | stop                                    -- outside the domain: nothing (more) is claimed
   | ok (env : List (Bytes × Bytes))         -- as demanded; the reference environment afterwards
 
-def refused (o : UObs) : Bool := o.val == .err "illegal" && o.ran.isEmpty && o.written.isEmpty
+def refused (o : UObs) : Bool := decide (o.val = .err "illegal") && o.ran.isEmpty && o.written.isEmpty
 
 def sendable (line : Bytes) : Bool := !forbidden Params.ubootBlacklist (line ++ [CR])
 
@@ -184,10 +184,10 @@ def specOp (c : UCase) (env : List (Bytes × Bytes)) (op : UOp) (o : UObs) : Ver
       else
         let want := text (Tty.cook out)
         let v := match k with
-          | .exec => o.val == .rc status want
-          | .exec0 => if status = 0 then o.val == .out want else o.val == .err "command-failure"
-          | .test => o.val == .bool (status == 0)
-        if v && o.ran == [.argv args, .status] then .ok env else .bad
+          | .exec => decide (o.val = .rc status want)
+          | .exec0 => if status = 0 then decide (o.val = .out want) else decide (o.val = .err "command-failure")
+          | .test => decide (o.val = .bool (status == 0))
+        if v && decide (o.ran = [.argv args, .status]) then .ok env else .bad
   | .env var (some x) =>
     if !sendable (Hush.escape (setenvArgs var x)) then (if refused o then .ok env else .bad)
     else if hasSpecial (Hush.escape (setenvArgs var x)) then .bad
@@ -195,8 +195,8 @@ def specOp (c : UCase) (env : List (Bytes × Bytes)) (op : UOp) (o : UObs) : Ver
     else
       let wins := envSetWins c.prompt var x
       if !wins.all Win.readable || earlyHit 0 wins (sums 0 o.pieces) then .stop
-      else if o.val == .out (decodeReplace x)
-          && o.ran == [.argv (setenvArgs var x), .status, .argv (printenvArgs var), .status] then
+      else if decide (o.val = .out (decodeReplace x))
+          && decide (o.ran = [.argv (setenvArgs var x), .status, .argv (printenvArgs var), .status]) then
         .ok (envSet env var x)
       else .bad
   | .env var none =>
@@ -209,9 +209,9 @@ def specOp (c : UCase) (env : List (Bytes × Bytes)) (op : UOp) (o : UObs) : Ver
       if !wins.all Win.readable || earlyHit 0 wins (sums 0 o.pieces) then .stop
       else
         let v := match cur with
-          | some x => o.val == .out (decodeReplace x)
-          | none => o.val == .err "command-failure"
-        if v && o.ran == [.argv (printenvArgs var), .status] then .ok env else .bad
+          | some x => decide (o.val = .out (decodeReplace x))
+          | none => decide (o.val = .err "command-failure")
+        if v && decide (o.ran = [.argv (printenvArgs var), .status]) then .ok env else .bad
 
 def specOps (c : UCase) : List (Bytes × Bytes) → List UOp → List UObs → Bool
   | _, [], [] => true
@@ -235,16 +235,22 @@ def verdicts (c : UCase) : List (Bytes × Bytes) → List UOp → List UObs → 
     UTF-8 beyond), legal variable names, single-line values, and every window readable in
     exactly one way — the no-early-prompt hypothesis, here at the level of the STREAM, so that it
     covers every fragmentation -/
+def wfOp (prompt : Bytes) (env : List (Bytes × Bytes)) : UOp → Bool
+  | .cmd _ args out status =>
+    !args.isEmpty && args.all printableB && (cmdWins prompt args out status).all Win.good
+  | .env var (some x) =>
+    printableB var && nameOk var && printableB x && (envSetWins prompt var x).all Win.good
+  | .env var none =>
+    printableB var && (envGetWins prompt var (envGet env var)).all Win.good
+
+/-- the reference environment after a call -/
+def nextEnv (env : List (Bytes × Bytes)) : UOp → List (Bytes × Bytes)
+  | .env var (some x) => envSet env var x
+  | _ => env
+
 def wfOps (prompt : Bytes) : List (Bytes × Bytes) → List UOp → Bool
   | _, [] => true
-  | env, .cmd _ args out status :: ops =>
-    !args.isEmpty && args.all printableB && (cmdWins prompt args out status).all Win.good
-      && wfOps prompt env ops
-  | env, .env var (some x) :: ops =>
-    printableB var && nameOk var && printableB x && (envSetWins prompt var x).all Win.good
-      && wfOps prompt (envSet env var x) ops
-  | env, .env var none :: ops =>
-    printableB var && (envGetWins prompt var (envGet env var)).all Win.good && wfOps prompt env ops
+  | env, op :: ops => wfOp prompt env op && wfOps prompt (nextEnv env op) ops
 
 def wellformed (c : UCase) : Bool := decide (0 < c.chunk) && !c.prompt.isEmpty && wfOps c.prompt [] c.ops
 
